@@ -56,6 +56,9 @@ pub struct RMsg {
     /// violations whose world was not sent (already sent often enough): key -> count
     pub suppressed: BTreeMap<String, u64>,
     pub outcomes: Vec<String>,
+    /// explicit worlds only: (world index, job index, request key, observation hash)
+    #[serde(default)]
+    pub obs: Vec<(usize, usize, u64, u64)>,
 }
 
 /// wall-clock backstop per job during the search (normal jobs take 0.3-50 ms); suspects are re-run alone with 200 s
@@ -221,7 +224,7 @@ impl Worker {
         cj.writer = crate::simio::StreamSpec::canonical();
         cj.label = format!("reference: {}", job.label);
         let w = World::solo("C05", cj);
-        let r = self.run("ref", &w);
+        let r = self.run(&format!("ref:{:016x}", key), &w);
         let obs = r.jobs[0].as_ref().unwrap().obs.clone();
         bump(&mut rm.stats, "references", 1);
         rm.refs.push((key, obs.hash()));
@@ -407,6 +410,7 @@ impl Worker {
                     }
                     for (ji, jr) in r.jobs.iter().enumerate() {
                         if let Some(jr) = jr {
+                            rm.obs.push((wi, ji, jr.key, jr.obs.hash()));
                             rm.outcomes.push(format!("world {} job {} [{}]: {}", wi, ji, w.jobs[ji].label, jr.obs.outcome.short().chars().take(300).collect::<String>()));
                             all.push((wi, ji, jr.clone()));
                         }
